@@ -1602,6 +1602,49 @@ example : Sim3.Valid (lineRot (Vec3.zero : Vec3 ℝ) Vec3.e0 1 0) ∧ (Vec3.zero
   · have := (collinear_optimum_not_unique Sim3one hv Vec3.zero Vec3.e0 (by lie_unfold; norm_num) [] [] (by simp)).2
     rwa [Sim3_one_mul] at this
 
+/-- **`rpe(align, scale)` of a trajectory with itself, from the raw inputs, under ANY optimal `svdstf`** (pass 11; raw-input form of
+`rpeCore_identical_zero_svd_of_optimal`): pairwise distinct stamps, `diff > 0`, a valid transform with cost ≤ 0 at the positions and two
+distinct positions — whenever `rpe` returns at all, every relative error is zero (all seven statistics for ≥ 2 pairs). No uniqueness:
+collinear positions included (rpe is not affected by D43). -/
+theorem rpe_identical_zero_svd_of_optimal (eps atol : ℝ) (heps : 0 ≤ eps) (hatol : atol ≤ 1)
+    (alignFn : List (Vec3 ℝ) → List (Vec3 ℝ) → Sim3 ℝ) (et : EType)
+    (diff : ℝ) (hdiff : 0 < diff) (pm : PairMode) (dN : Nat) (delta rtol : ℝ) (all rpair : Bool)
+    (rs : List ℝ) (rp : List (SE3 ℝ)) (hlen : rp.length = rs.length) (hne : rs ≠ [])
+    (hdist : ∀ (i : Nat) (hi : i < rs.length) (k : Nat) (hk : k < rs.length), k ≠ i → rs[i] ≠ rs[k])
+    (hv : ∀ r ∈ rp, SE3.Valid r)
+    (hTv : Sim3.Valid (alignFn (rp.map (·.t)) (rp.map (·.t))))
+    (hopt : cost (alignFn (rp.map (·.t)) (rp.map (·.t))) (rp.map (·.t)) (rp.map (·.t)) ≤ 0)
+    (hpos : ∃ a ∈ rp, ∃ b ∈ rp, a.t ≠ b.t) (errs : List ℝ)
+    (h : rpeErrors eps atol alignFn et diff 0 .svd pm dN delta rtol all rpair rs rp rs rp = some errs) :
+    (∀ e ∈ errs, e = 0) ∧ (2 ≤ errs.length → (stats errs).toList = [0, 0, 0, 0, 0, 0, 0]) := by
+  have ha : associate diff 0 rs rp rs rp = some ⟨rs, rp, rs, rp⟩ := by
+    apply associate_jitter diff 0 rs rs rp rp rfl hlen hlen hne
+    · intro i hi; simpa using hdiff
+    · intro i hi k hk hki
+      have : rs[i] - rs[k] ≠ 0 := sub_ne_zero.mpr (hdist i hi k hk hki)
+      simpa using this
+  unfold rpeErrors at h
+  rw [ha] at h
+  simp only [Option.bind_some] at h
+  exact rpeCore_identical_zero_svd_of_optimal eps atol heps hatol alignFn et pm dN delta rtol all rpair rp hv hTv hopt hpos errs h
+
+/-- non-vacuity of the stamp / position hypotheses of `rpe_identical_zero_svd_of_optimal` on a collinear trajectory: stamps 0, 1, 2 are
+pairwise distinct and the three poses on the x-axis have two distinct positions (the optimal non-identity transform is the half turn of
+the previous `example`s). -/
+example : (∀ (i : Nat) (hi : i < ([0, 1, 2] : List ℝ).length) (k : Nat) (hk : k < ([0, 1, 2] : List ℝ).length), k ≠ i →
+      ([0, 1, 2] : List ℝ)[i] ≠ ([0, 1, 2] : List ℝ)[k]) ∧
+    (∃ a ∈ ([⟨Vec3.zero, Quat.one⟩, ⟨Vec3.e0, Quat.one⟩, ⟨Vec3.e0.smul 2, Quat.one⟩] : List (SE3 ℝ)),
+      ∃ b ∈ ([⟨Vec3.zero, Quat.one⟩, ⟨Vec3.e0, Quat.one⟩, ⟨Vec3.e0.smul 2, Quat.one⟩] : List (SE3 ℝ)), a.t ≠ b.t) := by
+  refine ⟨?_, ⟨⟨Vec3.zero, Quat.one⟩, by simp, ⟨Vec3.e0, Quat.one⟩, by simp, ?_⟩⟩
+  · intro i hi k hk hki
+    simp only [List.length_cons, List.length_nil] at hi hk
+    have hi' : i = 0 ∨ i = 1 ∨ i = 2 := by omega
+    have hk' : k = 0 ∨ k = 1 ∨ k = 2 := by omega
+    rcases hi' with rfl | rfl | rfl <;> rcases hk' with rfl | rfl | rfl <;> simp_all
+  · intro h
+    have := congrArg Vec3.x h
+    simp [Vec3.zero, Vec3.e0] at this
+
 /-! ## geodesic loss -/
 
 /-- **Symmetry**: `geodesic_loss(x, y) = geodesic_loss(y, x)` item-wise — for all quaternions, every regime. -/
